@@ -38,6 +38,38 @@ def profile_diff(c):
                                "stage": "%s:?" % o, "idx": int(i), "case": {"stage_ord": o, "idx": i}, "profile": "mon-rel"}
 
 CONFIG = {
+    "C05": {
+        "profiles": BOTH,
+        "rule": "one evaluation = one execution of a logical/conditional tree (or of a truthiness context); distinct non-trivial = distinct sources whose "
+                "reference evaluation makes at least one logged call (so laziness is observable)",
+        "floors": {"quick": {"_evaluations": 150000, "root/||": 5000, "root/&&": 5000, "root/?:": 5000, "root/match": 2000, "truthiness/ternary": 200},
+                   "thorough": {"_evaluations": 1500000}},
+        "assumptions": ASSUME_COMMON + [
+            "which error is returned is not compared (failed / not failed only)",
+            "a failing match scrutinee or pattern is outside the statement and not generated",
+            "bool() on the ten boolean spellings is a conversion (C14) and excluded from the truthiness comparison"],
+        "technique": "runtime monitoring: call-log monitor (bound functions with unique ids record every evaluation) compared with a reference evaluator of the "
+                     "laziness / failure-absorption rules; truthiness table checked in nine syntactic contexts",
+        "level_text": "All one-operator trees and all two-operator trees over 12 atom kinds (logging truthy/falsy/non-bool calls, failing calls, literals, bound variables, unbound "
+                      "identifier, run-time and compile-time division by zero) and random trees up to 12 operators incl. match are executed; result and exact call sequence must "
+                      "equal the reference evaluator. Truthiness of every pool value is compared in ?:, !, ||, &&, all, exists, filter, map and bool(), literal and bound. Exploration only.",
+        "level_note": "trusts the 60-line reference evaluator and the logging functions bound through bind_func",
+    },
+    "C06": {
+        "profiles": BOTH,
+        "rule": "one evaluation = one expression over a generated list / map / string; distinct non-trivial = distinct non-empty collection literals "
+                "(source text incl. which elements are literals and which are bound variables)",
+        "floors": {"quick": {"_evaluations": 500000, "sub/map-literal-dup": 2000, "sub/index-oob": 5000, "sub/map-field-absent": 2000},
+                   "thorough": {"_evaluations": 5000000}},
+        "assumptions": ASSUME_COMMON + [
+            "list membership across numeric types (1 in [1u]) and of containers is not asserted in the negative direction",
+            "absent key / field must be CelError::Attribute (the class has() and coalesce() depend on)"],
+        "technique": "runtime monitoring with a reference model (vectors, last-wins insertion maps) over generated collections built from literal, bound and mixed elements",
+        "level_text": "Lists and maps of size 0..8 with elements of every type (nested) are built all-literal (compiler), all-variable (VM) and mixed; every index in "
+                      "[-size-2, size+2] plus extreme ints/uints, non-integer indices, every key of a small key set incl. duplicates, absent keys and keys that are method names, "
+                      "membership, concatenation and size are compared with the model in bound and literal form. Exploration only.",
+        "level_note": "trusts the 20-line collection model in the harness",
+    },
     "C14": {
         "profiles": BOTH,
         "rule": "one evaluation = one conversion call, law instance, round trip or f-string; distinct non-trivial = distinct (constructor, source value) pairs, "
